@@ -9,6 +9,7 @@ import (
 	"os"
 	"path/filepath"
 	"strings"
+	"sync"
 	"testing"
 	"time"
 )
@@ -16,7 +17,7 @@ import (
 func TestVerifC11(t *testing.T) {
 	vfMain(t, vfCheck{
 		ID: "C11", Level: "fault_enumeration",
-		Rule: "seeded sequential sessions over both servers (allocator on/off): opens that succeed and fail, OPENDIR, up to 50 simultaneously open handles, closes of live, already closed and bogus handles, READ/WRITE/FSTAT/FSETSTAT/READDIR/CLOSE on stale and never-issued handles; each session is replayed and ended after request k (quick: 6 seeded k + the end; thorough: every k) by EOF, by a transport error in the middle of the next packet, and by a connection reset. A class is (server, allocator, ending, open handles at the end bucket).",
+		Rule:        "seeded sequential sessions over both servers (allocator on/off): opens that succeed and fail, OPENDIR, up to 50 simultaneously open handles, closes of live, already closed and bogus handles, READ/WRITE/FSTAT/FSETSTAT/READDIR/CLOSE on stale and never-issued handles; each session is replayed and ended after request k (quick: 6 seeded k + the end; thorough: every k) by EOF, by a transport error in the middle of the next packet, and by a connection reset. A class is (server, allocator, ending, open handles at the end bucket).",
 		Assumptions: []string{"only objects bound to a handle are judged (listers fetched for Stat/Lstat/Readlink are transient and are reported, not judged)", "race detector on"},
 		Units: func(tier vfTier, seed uint64) int {
 			if tier == vfThorough {
@@ -30,7 +31,7 @@ func TestVerifC11(t *testing.T) {
 			}
 			return 8
 		},
-		Floors: map[string]int64{"sessions_run": 100, "stale_or_bogus_handle_requests": 400, "handles_issued": 800, "objects_judged": 300, "endings_with_open_handles": 40},
+		Floors: map[string]int64{"sessions_run": 100, "stale_or_bogus_handle_requests": 400, "handles_issued": 800, "objects_judged": 300, "endings_with_open_handles": 40, "endings_with_opens_in_flight": 20},
 		Run:    c11Run,
 	})
 }
@@ -340,7 +341,7 @@ func c11Run(u *vfUnit) {
 		}
 	}
 	for k := range ks {
-		for _, how := range []string{"eof", "midpacket-error", "midpacket-eof", "reset"} {
+		for _, how := range []string{"eof", "midpacket-error", "midpacket-eof", "reset", "eof-during-open", "reset-during-open"} {
 			ends = append(ends, ending{k, how})
 		}
 	}
@@ -380,6 +381,7 @@ func c11Run(u *vfUnit) {
 		u.Max("max_open_handles", int64(openAtEnd))
 		// the ending
 		endMsg := ""
+		inflightOpens := 0
 		switch en.how {
 		case "clean-close-all":
 			for _, h := range x.hs {
@@ -414,6 +416,42 @@ func c11Run(u *vfUnit) {
 			rs.sEnd.Close()
 			rs.cEnd.Close()
 			<-rs.R.rdone
+		case "eof-during-open", "reset-during-open":
+			// OPEN/OPENDIR requests are still being served by (slow) handlers when the connection ends:
+			// whatever they open must be released by the end of Serve as well
+			if e.kind == vfRS {
+				slow := r.Fork()
+				var smu sync.Mutex
+				e.store.OpenErr = func(m, p string) error {
+					smu.Lock()
+					d := 200 + slow.Intn(3000)
+					smu.Unlock()
+					time.Sleep(time.Duration(d) * time.Microsecond)
+					return nil
+				}
+			}
+			var burst []byte
+			nOpen := 1 + r.Intn(4)
+			for k := 0; k < nOpen; k++ {
+				if k%3 == 2 {
+					burst = append(burst, vfPkt{Type: rfOpendir, ID: uint32(88000 + k), Path: e.p("d")}.Frame()...)
+				} else {
+					burst = append(burst, vfPkt{Type: rfOpen, ID: uint32(88000 + k), Path: e.p(fmt.Sprintf("f%d", k)), Pflags: []uint32{rfRead_, rfWrite_, rfRead_ | rfWrite_}[k%3]}.Frame()...)
+				}
+			}
+			rs.R.Send(burst)
+			inflightOpens = nOpen
+			if en.how == "eof-during-open" {
+				endMsg = rs.End(120 * time.Second)
+			} else {
+				rs.cEnd.Close()
+				if w, dump := vfAwait(rs.S.done, 120*time.Second); w != vfDone {
+					endMsg = fmt.Sprintf("Serve did not return after a connection reset (%v)\n%s", w, vfTrim(dump, 3000))
+				}
+				rs.sEnd.Close()
+				<-rs.R.rdone
+			}
+			u.Count("endings_with_opens_in_flight", 1)
 		case "reset":
 			// the whole connection goes away (both directions)
 			rs.cEnd.Close()
@@ -465,7 +503,14 @@ func c11Run(u *vfUnit) {
 				if !o.CtxDone() && o.kind != "stat" {
 					u.Violation("context-not-cancelled:"+o.kind, fmt.Sprintf("%s: the context handed to the handler for %s is still not done after the session ended", label, desc), w)
 				}
-				if h != nil && len(bound) == len(x.hs) {
+				if h == nil && inflightOpens > 0 && o.kind != "list" {
+					// opened by a request that was still in flight when the connection ended: its handle
+					// was open at the end of the session, so it must have been notified (once) and closed (checked above)
+					if te := o.transferErrs.Load(); te != 1 {
+						u.Violation(fmt.Sprintf("transfer-error-count-%d-for-late-open:%s", te, en.how), fmt.Sprintf("%s: %s (opened by a request in flight when the connection ended) got %d TransferError notifications", label, desc, te), w)
+					}
+				}
+				if h != nil && (len(bound) == len(x.hs) || inflightOpens > 0) {
 					te := o.transferErrs.Load()
 					// TransferError is documented for the readerAt/writerAt objects only; a lister is
 					// not required to be notified (it must still be closed exactly once).
